@@ -574,4 +574,67 @@ theorem trigActiveOne_nonstart (g : Graph) (group : List (Int × String)) (flow 
   unfold trigActiveOne
   simp only [hx, hd, hpar, if_true]
 
+/-! ### The trigger releases the holds of the members it removes or finds outside the pool -/
+
+theorem releaseHeldActive_hold (s : State) (x : Proxy) (qir : Bool) :
+    (releaseHeldActive s x qir).tasksToHold = s.tasksToHold.filter (· != (x.name, x.pt)) := by
+  unfold releaseHeldActive
+  simp only
+  split <;> rfl
+
+/-- one step of `release_held_tasks` only filters the hold list, and drops the id it handles -/
+theorem releaseOne_hold (qir : Bool) (st : State) (k : Int × String) :
+    (releaseOne qir st k).tasksToHold = st.tasksToHold.filter (· != (k.2, k.1)) := by
+  unfold releaseOne
+  by_cases hc : st.tasksToHold.contains (k.2, k.1) = true
+  · simp only [hc, Bool.not_true, Bool.false_eq_true, if_false]
+    cases hg : st.get? k.1 k.2 with
+    | none => rfl
+    | some y =>
+      have hk := get?_some_key st k.1 k.2 y hg
+      simp only
+      rw [releaseHeldActive_hold, hk.1, hk.2]
+  · have hc' : st.tasksToHold.contains (k.2, k.1) = false := by simpa using hc
+    simp only [hc', Bool.not_false, if_true]
+    symm
+    apply List.filter_eq_self.mpr
+    intro e he
+    simp only [bne_iff_ne, ne_eq]
+    intro h
+    rw [h] at he
+    have : st.tasksToHold.contains (k.2, k.1) = true := by simpa using he
+    rw [hc'] at this
+    exact absurd this (by decide)
+
+theorem releaseTasks_sub (s : State) (ids : List (Int × String)) (qir : Bool) :
+    ∀ e, e ∈ (releaseTasks s ids qir).tasksToHold → e ∈ s.tasksToHold := by
+  unfold releaseTasks
+  induction ids generalizing s with
+  | nil => intro e h; exact h
+  | cons a l ih =>
+    intro e h
+    simp only [List.foldl_cons] at h
+    have h1 := ih _ e h
+    rw [releaseOne_hold] at h1
+    exact (List.mem_filter.mp h1).1
+
+/-- **`release_held_tasks(ids)`: none of the ids is on the hold list afterwards** -/
+theorem releaseTasks_released (s : State) (ids : List (Int × String)) (qir : Bool) :
+    ∀ k ∈ ids, (k.2, k.1) ∉ (releaseTasks s ids qir).tasksToHold := by
+  induction ids generalizing s with
+  | nil => intro k hk; simp at hk
+  | cons a l ih =>
+    intro k hk
+    have hstep : releaseTasks s (a :: l) qir = releaseTasks (releaseOne qir s a) l qir := by
+      unfold releaseTasks; simp only [List.foldl_cons]
+    rw [hstep]
+    rcases List.mem_cons.mp hk with h | h
+    · subst h
+      intro hm
+      have := releaseTasks_sub _ l qir _ hm
+      rw [releaseOne_hold] at this
+      have h2 := (List.mem_filter.mp this).2
+      simp at h2
+    · exact ih _ k h
+
 end CylcModel.Sched3Trig
